@@ -190,6 +190,11 @@ def run(rep: common.Report):
         rep.add(refuses_lf())
     except extract.Outside as e:
         rep.add(Obligation(f"{PID}.L3.line_break_is_refused", "parser:Contentline.__new__", "fin", UNDECIDED, detail=str(e)))
+    # the lines layer between a content line and the octets: a content line reaches the parser again only if folding is undone exactly
+    # (C06.P4 / P5); the obligations of C06 are re-run on this tree, a refutation there is reported by C06's own check
+    from props import C01 as _C01
+    for ob in _C01.import_lemmas(rep, rep.tier, plan=[("L4", "C06", lambda o: True, "folding undone exactly, lines round trip")], pid=PID):
+        rep.add(ob)
     from props import C05_bnd
     b = Bounded("C05.bnd.tree_level_injection", "cal:Component.to_ical -> from_ical (real)", C05_bnd.BOUND[rep.tier])
     t0 = time.time()
